@@ -928,7 +928,10 @@ class FlowCheck(core.Check):
         cache = self.__dict__.setdefault('_runs', {})
         key = core.sha([case['prog'], case.get('direct')])
         if key not in cache:
-            cache[key] = run_impl(case['prog'], case.get('direct'))
+            # statement budget: FUEL for programs the reference runs for ever, else well above what the
+            # reference needs (<= SHORT), so that a mutant that loops does not cost FUEL statements per case
+            limit = FUEL if self.expected(case) == [3] else 2 * SHORT + 100
+            cache[key] = run_impl(case['prog'], case.get('direct'), limit=limit)
         return cache[key]
 
     def model_term(self, case):
@@ -1066,5 +1069,5 @@ def show(r):
     if r[0] == 1:
         return 'output %s then "%s%s"' % (r[3:], message(r[1]), '' if r[2] == 65535 else ' in %d' % r[2])
     if r[0] == 3:
-        return 'no end within %d statements' % FUEL
+        return 'no end within the statement limit'
     return 'unreadable output %s' % r
